@@ -32,6 +32,7 @@ type HarnessDef struct {
 	SolverMs  [2]int
 	Files     []string // harness source files (base names) this harness needs in its package dir; empty = all files of the dir
 	Quiet     []string // import-path prefixes: no preemption inside these packages (schedule reduction, stated in the evidence)
+	Samples   [2]int   // native validation: number of passing paths re-run natively per tier (0 = default 3 / 10)
 	OSSwap    []string // packages whose "os" import is pointed at verifrt/vos in the native replay build (real op log for crash images)
 }
 
@@ -210,7 +211,11 @@ func cmdCheck(args []string) int {
 		if h.SolverMs[ti] > 0 {
 			solverMs = h.SolverMs[ti]
 		}
-		opts := sym.ExploreOpts{Workers: *workers, SolverTimeoutMs: solverMs, Samples: 3 + 7*ti, Seed: seed, MaxPaths: h.MaxPaths[ti], Deadline: time.Now().Add(time.Duration(*budget*(1+5*ti)) * time.Second)}
+		nSamples := 3 + 7*ti
+		if h.Samples[ti] > 0 {
+			nSamples = h.Samples[ti]
+		}
+		opts := sym.ExploreOpts{Workers: *workers, SolverTimeoutMs: solverMs, Samples: nSamples, Seed: seed, MaxPaths: h.MaxPaths[ti], Deadline: time.Now().Add(time.Duration(*budget*(1+5*ti)) * time.Second)}
 		st, err := eng.Explore(sym.Harness{Pkg: fullPkg(h.Pkg), Func: h.Func}, cfg, opts)
 		if err != nil {
 			broken = append(broken, h.Func+": "+err.Error())
@@ -303,10 +308,28 @@ func cmdCheck(args []string) int {
 		}
 		// translator validation on sampled non-violating paths
 		if !h.NoReplay && !*noReplay {
-			n, errs := validateSamples(eng, h, st, params)
+			n, errs, nativeFails := validateSamples(eng, h, st, params)
 			validated += n
 			for _, e := range errs {
 				broken = append(broken, h.Func+": translator validation: "+e)
+			}
+			// A native run that fails an assertion is a concrete failing execution of the real
+			// code: it is reported as a violation (and the model that passed the path is flagged).
+			seenNative := map[string]bool{}
+			for _, nf := range nativeFails {
+				if seenNative[nf.Label] {
+					continue
+				}
+				seenNative[nf.Label] = true
+				nviol++
+				path := filepath.Join(replayDir, fmt.Sprintf("%s-%s-native-%s-%d.json", id, h.Func, sanitize(nf.Label), nviol))
+				rp := map[string]any{"property": id, "harness": h.Func, "kind": "assert", "label": nf.Label, "inputs": nf.Inputs, "params": params, "extra": nf.Extra,
+					"note": "found by the native validation run of a path the symbolic model passed: the real code (with the real libraries) fails the assertion on these inputs"}
+				b, _ := json.MarshalIndent(rp, "", " ")
+				os.WriteFile(path, b, 0o644)
+				fmt.Printf("VIOLATION property=%s replay=%s\n", id, path)
+				fmt.Printf("  harness=%s kind=assert label=%s (native execution of the real code; the symbolic model with its library stubs passed this path) inputs=%v\n", h.Func, nf.Label, nf.Inputs)
+				exit = 1
 			}
 		}
 	}
